@@ -350,12 +350,14 @@ package core
 //@   requires DirWF(d) && core.catalog != nil && core.catalog.Info != nil
 //@   ensures [C11] !has(d.namedParameters, "Title") || d.namedParameters["Title"] == "" ==> ret != nil && unchanged()
 //@   ensures [C11] old(core.catalog.Info.Title) != "" ==> ret != nil && unchanged()
+//@   ensures [C17] ret == nil ==> core.catalog.Info.Title == d.namedParameters["Title"]
 //@   ensures [C02] ret != nil ==> ret.file == d.keywordCoords.file && ret.index == d.keywordCoords.begin
 
 //@ func (core.JApiCore).addVersion
 //@   tag C11 C01
 //@   requires DirWF(d) && core.catalog != nil && core.catalog.Info != nil
 //@   ensures [C11] !has(d.namedParameters, "Version") || d.namedParameters["Version"] == "" ==> ret != nil && unchanged()
+//@   ensures [C17] ret == nil ==> core.catalog.Info.Version == d.namedParameters["Version"]
 //@   ensures [C11] old(core.catalog.Info.Version) != "" ==> ret != nil && unchanged()
 //@   ensures [C02] ret != nil ==> ret.file == d.keywordCoords.file && ret.index == d.keywordCoords.begin
 
